@@ -85,6 +85,7 @@ static void run_one(const vf_check *ck, const vcase *c, vres *r, int percase)
     memset(r, 0, sizeof *r);
     vf_reset_case();
     vf_fill_byte = c->fillb;
+    vf_pat_gen = c->gen;
     for (int i = 1; i <= 7; i++) vf_tune[i] = c->tune[i];
     wk->cur_flags = 0; wk->cur_phase = 0;
     long live0 = vf_live_count();
